@@ -45,3 +45,20 @@ Theorem C07_paveba_samples_every_active_design : forall S P U,
   Gen_algos.paveba_sampled S P U = Spec.union S U /\ Gen_algos.paveba_queries_and_stores_same_set = true.
 Proof. intros. split; reflexivity. Qed.
 Print Assumptions C07_paveba_samples_every_active_design.
+
+(* the GP algorithms: evaluating() REGENERATED from the source offers the acquisition optimiser exactly the points of the
+   active set (S ∪ P for VOGP / eps-PAL, S ∪ U for PaVeBaGP / PaVeBaPartialGP), with the acquisition the algorithm names;
+   only PaVeBaPartialGP evaluates per objective *)
+Theorem C07_gp_algorithms_offer_exactly_the_active_designs : forall S P U,
+  Spec.ef_choices (Gen_algos.vogp_evaluating S P U) = Spec.union S P /\
+  Spec.ef_choices (Gen_algos.epal_evaluating S P U) = Spec.union S P /\
+  Spec.ef_choices (Gen_algos.paveba_gp_evaluating S P U) = Spec.union S U /\
+  Spec.ef_choices (Gen_algos.paveba_partial_gp_evaluating S P U) = Spec.union S U /\
+  Spec.ef_acq (Gen_algos.vogp_evaluating S P U) = Spec.AcqMaxDiagonal /\
+  Spec.ef_acq (Gen_algos.epal_evaluating S P U) = Spec.AcqMaxDiagonal /\
+  Spec.ef_acq (Gen_algos.paveba_gp_evaluating S P U) = Spec.AcqSumVariance /\
+  Spec.ef_acq (Gen_algos.paveba_partial_gp_evaluating S P U) = Spec.AcqMaxVarianceDecoupled /\
+  Spec.ef_decoupled (Gen_algos.paveba_partial_gp_evaluating S P U) = true /\
+  Spec.ef_decoupled (Gen_algos.vogp_evaluating S P U) = false.
+Proof. intros. repeat split. Qed.
+Print Assumptions C07_gp_algorithms_offer_exactly_the_active_designs.
